@@ -294,6 +294,8 @@ def run(ctx):
             w = v.get('witness') or {}
             if binp is None: binp = replay.build('rt')
             # replay as an arrival history: the buffered A and B events in vector order (their timestamps, in ms granularity the probe scales to), then the arriving event
-            a = [binp, 'join', 'witness'] + [str(w.get('window', 1)), str(w.get('now', 0))] + ['A'] + [str(t) for t in w.get('A', [])] + ['B'] + [str(t) for t in w.get('B', [])]
+            # the witness is a buffer STATE (which arrival history produced it is not part of it): the replay is the bounded differential probe of the
+            # public add_event API over every arrival history of <= 4 events, against the windowed-join specification
+            a = [binp, 'join', 'probe']
             ctx.findings.append(Finding(key, '%s %s: %s (witness %s)' % (tgt, cls, v['name'], w), a, w))
     ctx.models += sorted(models.USED)
